@@ -1,7 +1,7 @@
 use rten_base::num::IsNaN;
 use rten_shape_inference::UnaryOp;
 use rten_tensor::prelude::*;
-use rten_tensor::{Tensor, TensorView};
+use rten_tensor::{SliceItem, Tensor, TensorView};
 use smallvec::SmallVec;
 
 use crate::buffer_pool::{AutoReturn, BufferPool};
@@ -81,7 +81,25 @@ pub fn scatter_elements<
     let axis_size = data.size(axis);
     let mut output = data.to_tensor_in(pool);
 
-    for (output_lane, (update_lane, index_lane)) in output
+    // `indices` may be smaller than `data` along any dimension. The entry at
+    // position `pos` of `indices` updates the output element at `pos` with
+    // the coordinate along `axis` replaced, so pair the lanes of `indices`
+    // with the lanes of the output region that `indices` covers.
+    let mut region: SmallVec<[SliceItem; 4]> = SmallVec::with_capacity(data.ndim());
+    for dim in 0..data.ndim() {
+        if dim == axis {
+            region.push((..).into());
+        } else if indices.size(dim) > data.size(dim) {
+            return Err(OpError::InvalidValue(
+                "`indices` must not be larger than `data` except along `axis`",
+            ));
+        } else {
+            region.push((0..indices.size(dim)).into());
+        }
+    }
+    let mut output_region = output.slice_mut(region.as_slice());
+
+    for (output_lane, (update_lane, index_lane)) in output_region
         .lanes_mut(axis)
         .zip(updates.lanes(axis).zip(indices.lanes(axis)))
     {
